@@ -181,6 +181,9 @@ func genbankDBLinkPairParser(gb *GenBank, depth int) pars.Parser {
 			return pars.NewError("expected `:`", state.Position())
 		default:
 			if len(s) < i+3 {
+				// Not recoverable: do not fall back to reading the line as
+				// an unknown field.
+				state.Clear()
 				return pars.NewError("expected a value after `: `", state.Position())
 			}
 			db, id := s[:i], s[i+2:]
